@@ -46,6 +46,11 @@ func builtinMathAtan2(call FunctionCall) Value {
 	if math.IsNaN(x) {
 		return NaNValue()
 	}
+	if x < 0 && y != 0 && y/x == 0 {
+		// The quotient underflows and math.Atan2 loses the sign of y; 15.8.2.5:
+		// the signs of y and x determine the quadrant.
+		return float64Value(math.Copysign(math.Pi, y))
+	}
 	return float64Value(math.Atan2(y, x))
 }
 
